@@ -12,6 +12,7 @@ import (
 	"sync"
 	"time"
 
+	"mellium.im/sasl"
 	"mellium.im/xmpp"
 	"mellium.im/xmpp/jid"
 	"mellium.im/xmpp/stream"
@@ -74,6 +75,26 @@ type other struct {
 type negRes struct {
 	mask         uint8
 	restart, err bool
+}
+
+// ids of the two built-in features when a scenario uses the real values of
+// xmpp.SASL and xmpp.BindResource instead of instrumented features
+const (
+	idSASL = 7
+	idBind = 8
+)
+
+func builtin() (saslF, bindF xmpp.StreamFeature) {
+	return xmpp.SASL("", "secret", sasl.Plain), xmpp.BindResource()
+}
+
+// builtinOthers describes the two real features with the masks they really have.
+func builtinOthers() []other {
+	sf, bf := builtin()
+	return []other{
+		{id: idSASL, nec: uint8(sf.Necessary), proh: uint8(sf.Prohibited), negotiable: sf.Negotiate != nil},
+		{id: idBind, nec: uint8(bf.Necessary), proh: uint8(bf.Prohibited), negotiable: bf.Negotiate != nil},
+	}
 }
 
 type scenario struct {
@@ -265,6 +286,10 @@ func (u unit) bytes(sc *scenario) []byte {
 				}
 			}
 			switch {
+			case it.id == idSASL && configured:
+				b.WriteString("<mechanisms xmlns='urn:ietf:params:xml:ns:xmpp-sasl'><mechanism>PLAIN</mechanism></mechanisms>")
+			case it.id == idBind && configured:
+				b.WriteString("<bind xmlns='urn:ietf:params:xml:ns:xmpp-bind'/>")
 			case it.id == 0:
 				b.WriteString("<starttls xmlns='" + nsTLS + "'>")
 				if it.req {
@@ -503,6 +528,21 @@ func (c *ctx) exec(sc scenario, base *xmpp.StreamFeature) (res result) {
 	calls := 0
 	for _, o := range sc.others {
 		o := o
+		if o.id == idSASL || o.id == idBind {
+			// the real built-in feature; its negotiation is recorded
+			sf, bf := builtin()
+			f := sf
+			if o.id == idBind {
+				f = bf
+			}
+			orig := f.Negotiate
+			f.Negotiate = func(ctx context.Context, s *xmpp.Session, data interface{}) (xmpp.SessionState, io.ReadWriter, error) {
+				rec(pick{id: o.id})
+				return orig(ctx, s, data)
+			}
+			features = append(features, f)
+			continue
+		}
 		f := xmpp.StreamFeature{
 			Name:       xml.Name{Space: fmt.Sprintf("urn:x:f%d", o.id), Local: fmt.Sprintf("f%d", o.id)},
 			Necessary:  xmpp.SessionState(o.nec),
